@@ -380,6 +380,21 @@ def check_C19(tier, seed):
     return v.finish(rule=RULE_REPLAY)
 
 
+def registry_stage(v, sd, binary, name, max_steps):
+    with open(os.path.join(sd, name + ".tla"), "w") as fh:
+        fh.write("---- MODULE %s ----\nEXTENDS Registry\n====\n" % name)
+    with open(os.path.join(sd, name + ".cfg"), "w") as fh:
+        fh.write('SPECIFICATION Spec\nCONSTANTS JobIds = {"j1"} ProvIds = {"prov1"} ContIds = {"c1"} DsIds = {"d1"}\n'
+                 'DsKinds = {"plain", "proxy", "virtual", "publicns"} MaxSteps = %d\nVIEW rview\nPROPERTY RestartKeeps\n'
+                 'CONSTRAINT REmit\nCHECK_DEADLOCK FALSE\n' % max_steps)
+    out = os.path.join(v.wd, name + ".out")
+    st = verif.run_tlc(sd, name, out, workers=4)
+    v.add_tlc(st)
+    tot, results = verif.replay(binary, v.wd, out, label=name, test="TestRegistry")
+    v.add_replay(tot, results, label=name)
+    os.remove(out)
+
+
 def check_C14(tier, seed):
     v = Verdict("C14", tier, seed)
     v.wd = verif.workdir("C14")
@@ -398,8 +413,12 @@ def check_C14(tier, seed):
                   max_batch=2, max_steps=10 if thorough else 8, acts=acts + ("gc",), tables="plain,eqlen",
                   kinds=kinds, limits=(0, 1, 2), sample=True, seed=seed, fan=5 if thorough else 4, classify=cl(mc),
                   rotate=True, per_world=100, target=20000 if thorough else 2500)
-    v.assumptions = ["restart = Store.Close + NewStore + NewDsManager on the same directory, at quiescent points",
-                     "job definitions / tokens and security state across restart are checked by the hub-level stage"]
+    # what else the hub remembers: job definitions / paused flags / tokens / history / cron registration, login
+    # providers, content, dataset settings, catalogue entities, namespaces (spec/Registry.tla)
+    registry_stage(v, sd, binary, "C14_registry", 4 if thorough else 3)
+    v.assumptions = ["restart = Store.Close + NewStore + NewDsManager (+ NewScheduler, NewProviderManager, content service) on "
+                     "the same directory, at quiescent points",
+                     "security clients and ACLs across restart: stage C16_persist (spec/AuthzPersist.tla)"]
     return v.finish(rule=RULE_REPLAY)
 
 
